@@ -937,7 +937,7 @@ def not_below_true_depth(s1, s2, dmin, slack):
 
 
 def gjk_simplex_orientation(s1, s2):
-    """<(B-A)x(C-A), D-A> of the simplex gjk hands to epa (C07: > 0 means all four initial EPA normals point inward)"""
+    """<(B-A)x(C-A), D-A> of the simplex gjk hands to epa (its sign is the row order; |.| ~ 0 means a flat simplex)"""
     import distance3d.gjk as G
     ok, raw = guarded(G.gjk, make_collider(s1), make_collider(s2))
     if not ok or raw[3] is None:
@@ -1049,24 +1049,9 @@ def _cls_epa_degenerate(fname, rel, s1, s2, det):
     return o is not None and abs(o) <= 1e-9 * Lz ** 3
 
 
-def _cls_epa_winding(fname, rel, s1, s2, det):
-    """epa reports two different positive depths.  Mechanism signature: the scene with the larger depth received a
-    simplex with <(B-A)x(C-A), D-A> > 0 from gjk (all four initial normals point inward, they are never oriented), and
-    neither depth is below the true penetration depth (sampled from the definition): an over-estimate from a wrongly
-    wound start polytope (curved shapes additionally stop at the 64-face limit / first face with gain < 1e-8).
-    Same defect as F-epa-inward-winding (C07)."""
-    if fname != "epa" or det["what"] != "d":
-        return False
-    t1, t2, factor = _transformed_scene(rel, s1, s2, det)
-    d0, d1 = _d01(det, factor)
-    L = scene_L(s1, s2)
-    if min(d0, d1) <= 1e-9 * L:
-        return False
-    w1, w2 = (s1, s2) if d0 > d1 else (t1, t2)
-    o = gjk_simplex_orientation(w1, w2)
-    if o is None or not o > 0.0:
-        return False
-    return not_below_true_depth(s1, s2, min(d0, d1), 1e-3 * L)
+# (F-c12-epa-inward-winding -- epa over-estimates from a start polytope whose rows gjk handed over with
+#  <(B-A)x(C-A), D-A> > 0 -- was repaired upstream together with C07's F-epa-inward-winding: epa orients the simplex
+#  itself now.  Its witness is replayed as a regression input, see known_witnesses(); no classifier is left for it.)
 
 
 def _cls_nesterov_momentum(fname, rel, s1, s2, det):
@@ -1127,7 +1112,6 @@ _FINDING_CLASSES = [
     ("F-c12-linecircle-inhomogeneous", _cls_linecircle_inhomogeneous),
     ("F-c12-mpr-depth-path", _cls_mpr_depth),
     ("F-c12-epa-degenerate-simplex", _cls_epa_degenerate),
-    ("F-c12-epa-inward-winding", _cls_epa_winding),
     ("F-c12-nesterov-momentum", _cls_nesterov_momentum),
     ("F-c12-nesterov-degenerate", _cls_nesterov_degenerate),
     ("F-c12-gjk-original-zero", _cls_gjk_original_zero),
@@ -1604,6 +1588,9 @@ def known_witnesses():
         if k.get("property") == "C12" and k.get("status") in ("known", "fixed") and isinstance(w, dict) and "s1" in w:
             out.append(w)
             out += [x for x in k.get("more_witnesses", []) if isinstance(x, dict) and "s1" in x]
+        # findings of other properties repaired upstream that C12 had met too (e.g. F-epa-inward-winding of C07)
+        if k.get("status") == "fixed" and "C12" in (k.get("also") or []):
+            out += [x for x in k.get("c12_witnesses", []) if isinstance(x, dict) and "s1" in x]
     return out
 
 
